@@ -143,6 +143,23 @@ func init() {
 			return map[string][]string{"q1": v1, "q2": {"re:q2"}, "q3": {"re:q3"}}
 		})
 	}
+	// requests through a pool: a worker found dead is replaced and the request is handed on - once; every caller
+	// gets the reply made for its own request (the pool forwards the request object itself)
+	c07delay["pool-worker-dead"] = true
+	c07Scenario("pool-worker-dead", 1, 2, false, func(c *c07world) map[string][]string {
+		w := c.w
+		_, pool, _ := w.spawnPool(poolCfg{size: 3})
+		w.Setup("kill-w1", func() { w.n.Kill(w.pids["W1"]) })
+		c.caller("C1", func() any { return pool }, "q1", "q2", "q3", "q4")
+		c.caller("C2", func() any { return pool }, "p1", "p2")
+		w.ex.Thread("G1", func() { w.n.Send(w.pids["C1"], "go") })
+		w.ex.Thread("G2", func() { w.n.Send(w.pids["C2"], "go") })
+		valid := map[string][]string{}
+		for _, q := range []string{"q1", "q2", "q3", "q4", "p1", "p2"} {
+			valid[q] = []string{"re:" + q}
+		}
+		return valid
+	})
 	// asynchronous reply sent by another process
 	c07Scenario("reply-from-helper", 2, 3, false, func(c *c07world) map[string][]string {
 		w := c.w
